@@ -410,12 +410,11 @@ func ruleNoDispatchAfterClose(c *Ctx) {
 				}
 				switch x := v.(type) {
 				case *ssa.Call:
-					if g := staticCallee(&x.Call); g != nil && inSmtp(g) {
-						for k := range c.F.MayRead(g) {
-							if closing[k] {
-								found = true
-							}
-						}
+					// the callee must read the state on EVERY path to its returns (isClosed does); a test that sits
+					// behind a configuration branch inside the callee (readLine consulting the flag only when a read
+					// timeout is set) is no test for the other configurations
+					if g := staticCallee(&x.Call); g != nil && inSmtp(g) && certainlyReads(g, closing, 0) {
+						found = true
 					}
 				case *ssa.UnOp:
 					walk(x.X, d+1)
@@ -517,4 +516,52 @@ func ruleLogoutOnceUnderLock(c *Ctx) {
 		}
 	}
 	R.Ob("(*Conn).Close/forgets the session", c.P.Pos(f.Pos()), nClear >= 1, "Conn.Close does not clear Conn.session directly (setSession takes the lock again: a second critical section)")
+}
+
+// certainlyReads: on every path from g's entry to a normal return g loads one of the fields (directly, or through a
+// package function that certainly does): the block of some such load dominates every returning block.
+func certainlyReads(g *ssa.Function, fields map[*types.Var]bool, depth int) bool {
+	if g.Blocks == nil || depth > 2 {
+		return false
+	}
+	var readBlocks []*ssa.BasicBlock
+	allInstrs(g, func(in ssa.Instruction) {
+		if v, ok := in.(ssa.Value); ok {
+			if fld, _ := loadedField(v); fld != nil && fields[fld] {
+				readBlocks = append(readBlocks, in.Block())
+			}
+		}
+		if _, isDefer := in.(*ssa.Defer); isDefer {
+			return
+		}
+		if _, isGo := in.(*ssa.Go); isGo {
+			return
+		}
+		if cc := callCommon(in); cc != nil {
+			if h := staticCallee(cc); h != nil && inSmtp(h) && h != g && certainlyReads(h, fields, depth+1) {
+				readBlocks = append(readBlocks, in.Block())
+			}
+		}
+	})
+	if len(readBlocks) == 0 {
+		return false
+	}
+	ok := true
+	nRet := 0
+	allInstrs(g, func(in ssa.Instruction) {
+		if _, isRet := in.(*ssa.Return); !isRet || in.Block() == g.Recover {
+			return
+		}
+		nRet++
+		dom := false
+		for _, rb := range readBlocks {
+			if rb == in.Block() || rb.Dominates(in.Block()) {
+				dom = true
+			}
+		}
+		if !dom {
+			ok = false
+		}
+	})
+	return ok && nRet > 0
 }
